@@ -1,7 +1,7 @@
 (** C02 -- parsing untrusted bytes is total and memory-safe: property theorems only.
     Each theorem is closed by [exact]/short glue from lemmas of [Proofs_C02], and followed by
     [Print Assumptions]. *)
-From Sci Require Import Wire.Views Wire.Spec_C02 Wire.Proofs_C02 Wire.Proofs_C02b Wire.Proofs_C02c Wire.Proofs_C02d.
+From Sci Require Import Wire.Views Wire.Spec_C02 Wire.Proofs_C02 Wire.Proofs_C02b Wire.Proofs_C02c Wire.Proofs_C02d Wire.Proofs_C02e.
 Local Open Scope N_scope.
 
 (** For every view type and EVERY byte string: the size a view constructor reports as the
@@ -166,3 +166,65 @@ Example accepted_packet :
             48;57;1;187;0;12;18;52;7;7;7;7] in
   required_size KRaw b = Ok 48 /\ required_size KUdpPkt b = Ok 48 /\ required_size KHeader b = Ok 36.
 Proof. vm_compute. repeat split; reflexivity. Qed.
+
+(** The owned constructor [View::try_from_boxed] (core/view.rs; no view type overrides it) accepts
+    EXACTLY the boxes whose length is exactly the required size, for all eleven view kinds and
+    every byte string: an accepted box is the input itself and has the required size; a box of the
+    required size is accepted; a box of any other length -- longer by one byte or by many -- is
+    refused with "Boxed buffer size does not match view size"; and it never panics.  (With `<`
+    instead of `!=` an oversized [Box<[u8]>] would reach [from_boxed_unchecked], which for the
+    fixed-size views is [Box<[u8]> -> Box<[u8; N]>] unchecked.) *)
+Theorem boxed_constructor_accepts_exactly_required_size :
+  forall (k : vkind) (b : bytes),
+    (forall v, try_from_boxed k b = Ok v -> v = b /\ required_size k b = Ok (blen b))
+    /\ (required_size k b = Ok (blen b) -> try_from_boxed k b = Ok b)
+    /\ (forall n, required_size k b = Ok n -> n <> blen b -> try_from_boxed k b = Err (VOther E_BOXED))
+    /\ is_panic (try_from_boxed k b) = false.
+Proof.
+  intros k b. repeat split.
+  - apply (try_from_boxed_exact k b v H).
+  - apply (try_from_boxed_exact k b v H).
+  - apply try_from_boxed_accepts.
+  - apply try_from_boxed_rejects.
+  - apply try_from_boxed_np.
+Qed.
+Print Assumptions boxed_constructor_accepts_exactly_required_size.
+
+(** The borrowed constructors [try_from_slice] / [try_from_mut_slice] cut the input at exactly the
+    required size: whenever the size function accepts, the view is the first [n] bytes and the rest
+    is everything behind them; an accepted view has exactly the required length and view ++ rest is
+    the input; a refusal is the size function's refusal. *)
+Theorem slice_constructors_cut_at_required_size :
+  forall (k : vkind) (b : bytes),
+    (forall n, required_size k b = Ok n -> try_from_slice k b = Ok (sub b 0 n, sub b n (blen b)))
+    /\ (forall v r, try_from_slice k b = Ok (v, r) ->
+          required_size k b = Ok (blen v) /\ blen v + blen r = blen b /\ b = v ++ r)
+    /\ (forall e, try_from_slice k b = Err e -> required_size k b = Err e).
+Proof.
+  intros k b. split; [|split].
+  - apply try_from_slice_accepts.
+  - intros v r H. destruct (try_from_slice_cut k b v r H) as (n & Hn & L & _ & _ & Hv & Hr & Hb).
+    rewrite Hv. repeat split; [exact Hn| |exact Hb]. rewrite Hr. lia.
+  - apply try_from_slice_err.
+Qed.
+Print Assumptions slice_constructors_cut_at_required_size.
+
+(** Every constructor family the check observes -- try_from_slice, try_from_mut_slice,
+    try_from_boxed, to_boxed, copy_to_slice, Box<Raw>::try_into_udp / try_into_scmp (on raw packet
+    views), Box<typed packet>::into_raw -- satisfies, in the model and for every view kind and byte
+    string, the executable exactness oracle [Spec_C02.ctor_obs_ok] that the check evaluates on the
+    IMPLEMENTATION's observations: an owned view reports and owns exactly the required size and that
+    is the whole input; a borrowed view is the first required-size bytes; nothing is accepted that
+    the size function refuses.  The [View]-trait families never panic. *)
+Theorem constructor_families_exact :
+  (forall (k : vkind) (fam arg : N) (b : bytes),
+     (fam = 5 \/ fam = 6 -> k = KRaw) -> fst (run_ctor k fam arg b) <> 99 ->
+     ctor_obs_ok (blen b) (match required_size k b with Ok n => Some n | _ => None end) fam arg
+                 (run_ctor k fam arg b) = true)
+  /\ (forall (k : vkind) (fam arg : N) (b : bytes), fam <= 4 \/ fam = 7 -> fst (run_ctor k fam arg b) <> 99).
+Proof.
+  split.
+  - intros k fam arg b Hk Hnp. exact (run_ctor_obs_ok k fam arg b _ eq_refl Hnp Hk).
+  - exact run_ctor_np.
+Qed.
+Print Assumptions constructor_families_exact.
